@@ -905,3 +905,9 @@ Proof. vm_compute. reflexivity. Qed.
 Lemma control_fallback_unconditional :
   env_control_exits_before_fallback = 0 /\ env_control_ctx_uses_after_transition = 0.
 Proof. vm_compute. split; reflexivity. Qed.
+
+(* in the source of this run none of the four callbacks loses the error of its negative-weight hook
+   pass before e.Cancel (counted by the translator): a critical hook failing in either pass of a
+   moment is "the hook of that moment fails" of the model *)
+Lemma hook_errors_not_lost : env_hook_errors_lost = 0.
+Proof. vm_compute. reflexivity. Qed.
